@@ -7,6 +7,7 @@ from .c05 import content_field_writes, node_of
 
 LEVEL = 'other'
 RULES = {
+    'C04.R6': 'a node is a terminal exactly when it has no children: the leaf flag is maintained by the arena mutators as their effect contracts say (shared with C12.R2)',
     'C04.R5': helpers.RULE_TEXT,
     'C04.R1': 'who may write node functions (AffContent.aff) outside constructors: from_poly (fresh root), apply_func_at_node, update_node, remove_axes, unary_op_inplace; who may write the cached state / witnesses (AffContent.state): new nodes start Indeterminate (shared with C05.R2)',
     'C04.R2': 'shape of what is written: composition kernels keep the input dimension (rows(A) x n), apply_func visits all terminals, remove_axes rewrites every node and in_dim together, decisions are copied with their row count; constructors declare the input dimension of the function they store (from_aff, with_capacity, new, from_poly)',
@@ -21,7 +22,7 @@ WRAPPERS = {
     'AffTree::add_child_node': ('Tree::add_child_node(self.tree, node, label, AffContent::new(aff))', [], 'attaches a fresh node (state Indeterminate) holding aff under (node, label)'),
     'AffTree::from_tree': ('AffTree::AffTree{tree, dim, RefCell::new(Vec::new())}', [], 'wraps the tree with the given input dimension and an empty scratch cache'),
 }
-FLOORS = {'C04.R5': 7, 'C04.R1': 8, 'C04.R2': 19, 'C04.R3': 5, 'C04.R4': 7}
+FLOORS = {'C04.R6': 15, 'C04.R5': 7, 'C04.R1': 8, 'C04.R2': 19, 'C04.R3': 5, 'C04.R4': 7}
 EXPLANATION = 'Input-dimension / common-output-dimension preservation, absence of the childless-decision state, absence of the merge assertion panic, for all histories.'
 DOES_NOT_DECIDE = 'panics reachable through unwrap/indexing inside ndarray/minilp; numeric content of node functions'
 ALLOWED_WRITERS = {
@@ -251,6 +252,7 @@ def constructors_in_dim(ctx):
 
 def run(ctx):
     helpers.run_for(ctx)
+    helpers.share_arena_contracts(ctx, 'C04.R6', failing_paths=False)
     prune.check_wrappers(ctx, 'C04.R1', WRAPPERS)
     constructors_in_dim(ctx)
     r1(ctx)
